@@ -12,7 +12,7 @@
 use std::hash::Hash;
 
 use hydro_lang::live_collections::stream::{NoOrder, Ordering};
-use hydro_lang::location::Location;
+use hydro_lang::location::{Location, MemberId};
 use hydro_lang::prelude::*;
 
 pub fn collect_quorum_mut<'a, L: Location<'a>, Order: Ordering, K: Clone + Eq + Hash, E: Clone>(
@@ -199,4 +199,39 @@ pub fn join_responses_mut<'a, K: Clone + Eq + Hash, M: Clone, V: Clone, L: Locat
 
         joined_this_tick
     }
+}
+
+/// C35 self-test (HV_MUTANT=6): copy of the cluster-to-cluster `Stream::broadcast_closed` of
+/// hydro_lang/src/live_collections/stream/networking.rs with the one-word mutation that builds
+/// the list of addressed members from the SOURCE cluster's key instead of the destination's.
+/// `wrong_key = false` gives the original behaviour.
+pub fn broadcast_closed_m2m_copy<'a, T, L, L2: 'a>(
+    wrong_key: bool,
+    stream: Stream<T, Cluster<'a, L>, Unbounded, hydro_lang::live_collections::stream::TotalOrder, hydro_lang::live_collections::stream::ExactlyOnce>,
+    to: &Cluster<'a, L2>,
+) -> KeyedStream<
+    hydro_lang::location::MemberId<L>,
+    T,
+    Cluster<'a, L2>,
+    Unbounded,
+    hydro_lang::live_collections::stream::TotalOrder,
+    hydro_lang::live_collections::stream::ExactlyOnce,
+>
+where
+    T: Clone + serde::Serialize + serde::de::DeserializeOwned,
+{
+    let key = if wrong_key { stream.location().id().key() } else { to.id().key() };
+    let cluster_ids = hydro_lang::location::cluster::ClusterIds {
+        key,
+        _phantom: std::marker::PhantomData,
+    };
+    let member_ids = stream
+        .location()
+        .source_iter(q!(cluster_ids.iter().map(|id| MemberId::from_tagless(id.clone()))));
+
+    stream
+        .cross_product(member_ids)
+        .map(q!(|(data, member_id)| (member_id, data)))
+        .into_keyed()
+        .demux(to, TCP.fail_stop().bincode())
 }
